@@ -129,7 +129,7 @@ def exec_net(spec):
     from plinio.methods.mps.nn.module import MPSModule
     from plinio.methods.mps.nn import MPSAdd, MPSIdentity
     rng = random.Random(spec['seed'])
-    res = {'spec': spec, 'fails': [], 'sel': {}, 'mism': [], 'cut': None, 'selrecs': []}
+    res = {'spec': spec, 'fails': [], 'sel': {}, 'mism': [], 'cut': None, 'selrecs': [], 'samples': []}
     try:
         p, x = build(spec)
         qs = {}                                   # id -> (name, module)
@@ -173,6 +173,17 @@ def exec_net(spec):
                         new[j][k], new[j][o2] = new[j][o2], new[j][k]
             a = torch.tensor(new, dtype=torch.float32)
             return a.t().contiguous() if m.alpha.dim() == 2 else a[0]
+        # ---- right after construction, before any forward: every selector holds what its constructor sampled (the selectors are
+        # built with their own defaults: plain softmax, T = 1, training mode) - a probability vector per decision / channel
+        for qid, (n_, m) in qs.items():
+            st = obs(m)
+            if not all(base.is_prob(c) for c in st['theta']):
+                res['fails'].append(('mps:theta-not-a-probability-vector:after-construction', '%s: theta_alpha right after MPS(...) is %r (precisions %r)' % (
+                    n_, [[float(v) for v in c] for c in st['theta']], [int(v) for v in m.precision.tolist()]), -1))
+            al = m.alpha.detach()
+            flat = (lambda t: (t.t() if t.dim() == 2 else t).flatten().tolist())
+            res['samples'].append({'q': n_ + ' (after construction)', 'theta': st['theta'], 'tab': [(Fraction(1), [base.z30(a_) for a_ in flat(al)], [base.me30(base.sexp(z_)) for z_ in flat(al)])],
+                                   'state': {'hard': False, 'gumbel': False, 'disabled': False, 'T': Fraction(1), 'training': True, 'alpha': st['alpha'], 'theta': st['theta']}})
         for qid, (n_, m) in qs.items():
             base.set_alpha(m, new_alpha(m, False), 'copy')
         T, h, g, d = spec['ctor']
@@ -208,6 +219,17 @@ def exec_net(spec):
                         r_['hard'] = h_
                     r_['gumbel'] = g_ if g_ is not None else (r_['gumbel'] if keep else False)
                     r_['disabled'] = d_ if d_ is not None else (r_['disabled'] if keep else False)
+            elif op[0] == 'comp':
+                # MPS.compensate_weights_values(): rescales the layer WEIGHTS; no selector may change, coefficients stay probability vectors
+                p.compensate_weights_values()
+                for qid, (n_, m) in qs.items():
+                    st = obs(m)
+                    if st != before[qid]:
+                        res['mism'].append(('compensate_weights_values-changed-a-selector', n_, i))
+                    if all(base.is_prob(c) for c in before[qid]['theta']) and not all(base.is_prob(c) for c in st['theta']):
+                        res['fails'].append(('mps:theta-not-a-probability-vector:after-compensate_weights_values', '%s: theta_alpha was %r, after compensate_weights_values() it is %r' % (
+                            n_, [[float(v) for v in c] for c in before[qid]['theta']], [[float(v) for v in c] for c in st['theta']]), i))
+                continue
             elif op[0] == 'train':
                 p.train()
                 mop = ['train']
@@ -500,6 +522,20 @@ def specs_net(ctx, keep):
                         ctor, ops = (T, rng.random() < 0.5, rng.random() < 0.5, True), [opt(), (rng.choice(['train', 'eval']),), fwd(), opt()]
                     mk(ctor, ops, dim=dim, residual=rng.random() < 0.3)
                     out[-1]['per_channel'] = pc
+    # weight precision tuples WITH 0 bit (and at least two other precisions): observation right after construction (MPS.__init__ calls
+    # compensate_weights_values()), explicit compensate_weights_values() / option calls before any forward, then forwards
+    for dim in (1, 2):
+        for pc in (False, True):
+            for kw in ((False, False, False), (True, False, False), (False, True, False), (False, False, True), (True, True, False)):
+                for rep in range(1 if ctx.quick else 3):
+                    T = rng.choice(base.TEMPS)
+                    ops = [('comp',)] if rng.random() < 0.7 else []
+                    ops += [upd(rng.choice(paths), t=rng.choice([None] + base.TEMPS), h=rng.choice([None, True, False])), ('comp',)] if rng.random() < 0.5 else []
+                    ops += [(rng.choice(['train', 'eval']),), fwd(), ('comp',), fwd()]
+                    mk((T,) + kw, ops, dim=dim, residual=rng.random() < 0.3)
+                    out[-1]['per_channel'] = pc
+                    out[-1]['wprec'] = [0] + rng.sample([2, 4, 8], rng.randint(2, 3))
+                    rng.shuffle(out[-1]['wprec'])
     for _ in range(20 if ctx.quick else 200):
         ops = []
         for _ in range(rng.randint(4, 10)):
